@@ -91,12 +91,12 @@ Proof.
   repeat apply Forall_cons; try apply Forall_nil.
   - split; [reflexivity|]. split; [constructor|intros n []].
   - split; [reflexivity|]. split; [repeat constructor; intros []|]. intros n [<-|[]].
-    split; [reflexivity|]. split; [reflexivity|]. split; [reflexivity|]. split; [exact I|]. split; [discriminate|].
+    split; [reflexivity|]. split; [reflexivity|]. split; [reflexivity|]. split; [exact I|]. split; [right; discriminate|].
     repeat constructor; try (vm_compute; reflexivity); try discriminate; exact I.
   - split; [reflexivity|]. split; [repeat constructor; cbn; intuition discriminate|]. intros n [<-|[<-|[]]].
-    + split; [reflexivity|]. split; [reflexivity|]. split; [reflexivity|]. split; [cbn; repeat split; vm_compute; reflexivity|]. split; [discriminate|].
+    + split; [reflexivity|]. split; [reflexivity|]. split; [reflexivity|]. split; [cbn; repeat split; vm_compute; reflexivity|]. split; [right; discriminate|].
       repeat constructor; try (vm_compute; reflexivity); try discriminate; exact I.
-    + split; [reflexivity|]. split; [reflexivity|]. split; [reflexivity|]. split; [exact I|]. split; [discriminate|].
+    + split; [reflexivity|]. split; [reflexivity|]. split; [reflexivity|]. split; [exact I|]. split; [right; discriminate|].
       repeat constructor; try (vm_compute; reflexivity); try discriminate; exact I.
 Qed.
 
